@@ -1164,6 +1164,12 @@ func c13Corpus() []string {
 	w2 := c13MakeSet(rr, []string{"01/02/2022", "12/31/2021", "abc"})
 	w2.values = "0,0,0"
 	out = append(out, w2.line("sortspec", "date", "0,1,2"))
+	// F19, third witness: no stranger at all – the layout is taken from whichever key is seen first, and the layout
+	// of 2022-9-3 (2006-1-2) also parses the zero-padded dates while 2006-01-02 does not parse 2022-9-3
+	all("date", []string{"2022-10-01", "2022-9-3", "2022-09-02"})
+	w3 := c13MakeSet(rr, []string{"2022-10-01", "2022-9-3", "2022-09-02"})
+	w3.values = "0,0,0"
+	out = append(out, w3.line("sortspec", "date", "0,1,2"))
 	return out
 }
 
